@@ -68,7 +68,7 @@ Definition effect_eqb (a b : effect) : bool :=
   | ERetransStart, ERetransStart | ERetransStop, ERetransStop | EArmTimer, EArmTimer
   | ERequestedSwapLog, ERequestedSwapLog => true
   | EPayFee p s r, EPayFee p' s' r' => seq p p' && seq s s' && opt_eqb seq r r'
-  | EPayClaim p s m r, EPayClaim p' s' m' r' => seq p p' && seq s s' && (m =? m') && opt_eqb seq r r'
+  | EPayClaim p s m t r, EPayClaim p' s' m' t' r' => seq p p' && seq s s' && (m =? m') && (t =? t') && opt_eqb seq r r'
   | ERecoverPay p r, ERecoverPay p' r' => seq p p' && opt_eqb seq r r'
   | EValidate t m h a c b x r, EValidate t' m' h' a' c' b' x' r' =>
       seq t t' && seq m m' && seq h h' && (a =? a') && (c =? c') && seq b b' && seq x x' && opt_eqb Bool.eqb r r'
